@@ -395,3 +395,109 @@ pub fn observe(src: &str, out: &str, cfg: &Config, range: Option<Range>, case: &
     let exempt: Vec<(usize, usize)> = out_recs.iter().zip(flags).filter(|(_, f)| *f).map(|(r, _)| (prev_code_end(out, r.start), r.end_semi)).collect();
     StmtObs { json: j, exempt_out: exempt }
 }
+
+// ------------------------------------------------------------------------------------------
+// Facts for require sorting (C12): the top-level statement sequence of input and output.
+
+fn classify_require(stmt: &crate::project::Node) -> (String, String) {
+    // (class, NAME)
+    let s = if stmt.k == "semi" { &stmt.c[0] } else { stmt };
+    if s.k != "local" || s.c[0].c.len() != 1 || s.c[1].c.len() != 1 {
+        return ("other".into(), String::new());
+    }
+    let name = s.c[0].c[0].a.clone();
+    let mut e = &s.c[1].c[0];
+    while e.k == "cast" {
+        e = &e.c[0];
+    }
+    if e.k == "chain" && e.c.len() >= 2 && e.c[0].k == "name" {
+        if e.c[0].a == "require" && e.c[1].k == "call" {
+            return ("require".into(), name);
+        }
+        if e.c[0].a == "game" && e.c[1].k == "mcall" && e.c[1].a == "GetService" {
+            return ("getservice".into(), name);
+        }
+    }
+    ("other".into(), String::new())
+}
+
+fn line_of(src: &str, byte: usize) -> usize {
+    src.as_bytes()[..byte.min(src.len())].iter().filter(|b| **b == b'\n').count() + 1
+}
+
+fn hash_str(s: &str) -> String {
+    use std::collections::hash_map::DefaultHasher;
+    use std::hash::{Hash, Hasher};
+    let mut h = DefaultHasher::new();
+    s.hash(&mut h);
+    format!("{:016x}", h.finish())
+}
+
+fn top_level_facts(src: &str, cfg: &Config) -> Option<Vec<Value>> {
+    let ast = fm_parse(src, cfg).ok()?;
+    let recs = collect(&ast);
+    let tree = crate::project::p_ast(&ast);
+    let tops: Vec<&SRec> = recs.iter().filter(|r| r.path.len() == 1).collect();
+    let mut out = Vec::new();
+    let mut prev_end_line = 0usize;
+    let mut prev_end = 0usize;
+    for (i, r) in tops.iter().enumerate() {
+        let node = tree.c.get(i)?;
+        let (cls, name) = classify_require(node);
+        let text = src.get(r.start..r.end_semi).unwrap_or("");
+        let nf = crate::obs::token_nf(src.get(r.start..r.end).unwrap_or("")).join(" ");
+        let start_line = line_of(src, r.start);
+        let end_line = line_of(src, r.end_semi);
+        // a blank line between the previous statement and this one (comment lines do not count)
+        let between = src.get(prev_end..r.start).unwrap_or("");
+        let blank_before = i > 0 && {
+            let mut lines = between.split('\n').collect::<Vec<_>>();
+            // first piece is the rest of the previous statement's line, last piece is this line's indent
+            if lines.len() >= 2 {
+                lines.remove(0);
+                lines.pop();
+            } else {
+                lines.clear();
+            }
+            lines.iter().any(|l| l.trim().is_empty())
+        };
+        let comment_between = i > 0 && between.contains("--");
+        out.push(json!({
+            "i": i + 1, "cls": cls, "name": name, "marker": hash_str(&nf), "text": hash_str(text),
+            "start": r.start, "end": r.end, "start_line": start_line, "end_line": end_line,
+            "line_gap": if i > 0 { start_line as i64 - prev_end_line as i64 } else { 0 },
+            "blank_before": blank_before, "comment_between": comment_between, "dirs": r.dirs, "semi": r.semi,
+            "multiline": end_line > start_line, "kind": r.kind,
+        }));
+        prev_end_line = end_line;
+        prev_end = r.end_semi;
+    }
+    Some(out)
+}
+
+pub fn sort_facts(src: &str, out: &str, cfg: &Config, range: Option<Range>) -> Value {
+    let mut j = json!({});
+    match (top_level_facts(src, cfg), top_level_facts(out, cfg)) {
+        (Some(mut a), Some(b)) => {
+            // dense rank of NAME in byte order (TLC cannot compare strings)
+            let mut names: Vec<String> = a.iter().map(|x| x["name"].as_str().unwrap_or("").to_string()).collect();
+            names.sort();
+            names.dedup();
+            for x in a.iter_mut() {
+                let nm = x["name"].as_str().unwrap_or("").to_string();
+                x["name_rank"] = json!(names.iter().position(|n| *n == nm).unwrap_or(0));
+            }
+            j["ins"] = json!(a);
+            j["outs"] = json!(b);
+        }
+        _ => {
+            j["error"] = json!("parse");
+        }
+    }
+    j["enabled"] = json!(cfg.sort_requires.enabled);
+    if let Some(rg) = range {
+        j["range"] = json!({"start": rg.start.map(|x| x as u64).unwrap_or(0), "has_start": rg.start.is_some(),
+            "end": rg.end.map(|x| if x > (1usize << 30) { 1u64 << 30 } else { x as u64 }).unwrap_or(0), "has_end": rg.end.is_some()});
+    }
+    j
+}
